@@ -622,3 +622,25 @@ Theorem C19_json_file_code_roundtrip : forall json_dec eh (dec : entries -> entr
   fn_NewMapsFromJsonFile callee open stat st name = Ret (map dec ms, None).
 Proof. exact PureG35.json_file_code_roundtrip. Qed.
 Print Assumptions C19_json_file_code_roundtrip.
+
+(* ---- the Raw file readers NewMapsFromJsonFileRaw / NewMapsFromXmlFileRaw (files.go), translated from the current sources: the
+   case table with the raw pairs for every reader function, the non-raw readers are their Maps, the JSON file round trip with
+   the raw text of every document (GenProofs/PureG36.v) *)
+From Mxj Require GenProofs.PureG36.
+
+Theorem C19_new_maps_from_json_file_raw_code_is_model : forall next callee open stat st name,
+  (forall sc, callee sc = PureG35.conv_next next sc) ->
+  fn_NewMapsFromJsonFileRaw callee open stat st name = PureG36.files_model_raw next open stat name.
+Proof. exact PureG36.new_maps_from_json_file_raw_code_is_model. Qed.
+Print Assumptions C19_new_maps_from_json_file_raw_code_is_model.
+
+Theorem C19_new_maps_from_xml_file_raw_code_is_model : forall next callee open stat st name,
+  (forall sc, callee sc [] = PureG35.conv_next next sc) ->
+  fn_NewMapsFromXmlFileRaw callee open stat st name = PureG36.files_model_raw next open stat name.
+Proof. exact PureG36.new_maps_from_xml_file_raw_code_is_model. Qed.
+Print Assumptions C19_new_maps_from_xml_file_raw_code_is_model.
+
+Theorem C19_json_file_code_is_strip_raw_code : forall callee open stat st name,
+  fn_NewMapsFromJsonFile callee open stat st name = PureG36.strip_raw (fn_NewMapsFromJsonFileRaw callee open stat st name).
+Proof. exact PureG36.json_file_code_is_strip_raw_code. Qed.
+Print Assumptions C19_json_file_code_is_strip_raw_code.
